@@ -25,6 +25,7 @@ EXPLANATION = (
     "reader enumerates every table (no predicate that can exclude user tables). NOT decided: row counts, value fidelity, "
     "sqlite3's transaction behaviour, DuckDB."
     " Also decided (rules added after the fifth blind round): (R18.7) memoised functions of the SQL adapters do not read the database."
+    " Rules added after the sixth blind round: (R18.8 = R15.6 of C15) the 'seen before' set rests on descriptor equality by definition; (R18.9) normalize_fieldname leaves Python keywords alone."
 )
 RULE_SUMMARY = "instances: SQL execute sites with their slots, reads of batch_size, transaction statements, emitted SQL types with computed affinity"
 
